@@ -20,38 +20,356 @@ open G G.Counts
 def Valid (rows : List Pair) (n : Nat) : Prop :=
   ∀ p ∈ rows, 0 ≤ p.1 ∧ p.1 < n ∧ 0 ≤ p.2 ∧ p.2 < n
 
+/-! ## helper lemmas: unique pairs, shapes, get/set -/
+
+
+theorem mem_insPair (x p : Pair) (l : List Pair) : x ∈ insPair p l ↔ x = p ∨ x ∈ l := by
+  induction l with
+  | nil => simp [insPair]
+  | cons q qs ih =>
+    unfold insPair
+    split
+    · simp
+    · split
+      · subst_vars; simp
+      · simp only [List.mem_cons, ih]; constructor <;> (intro h; rcases h with h | h | h <;> simp [h])
+
+theorem mem_uniquePairs (x : Pair) (rows : List Pair) : x ∈ uniquePairs rows ↔ x ∈ rows := by
+  induction rows with
+  | nil => simp [uniquePairs]
+  | cons p ps ih =>
+    have : uniquePairs (p :: ps) = insPair p (uniquePairs ps) := rfl
+    rw [this, mem_insPair, ih]; simp
+
+/-- `m` is an n × n matrix -/
+def Shape (n : Nat) (m : Mat) : Prop := m.length = n ∧ ∀ r ∈ m, r.length = n
+
+theorem shape_zeros (n : Nat) : Shape n (zeros n) := by
+  refine ⟨by simp [zeros], ?_⟩
+  intro r hr
+  simp only [zeros, List.mem_replicate] at hr
+  simp [hr.2]
+
+theorem shape_set {n : Nat} {m : Mat} (h : Shape n m) (i j v : Nat) : Shape n (m.set i j v) := by
+  unfold Mat.set
+  split
+  next row hrow =>
+    refine ⟨by simp [h.1], ?_⟩
+    intro r hr
+    rcases List.mem_or_eq_of_mem_set hr with h1 | h1
+    · exact h.2 r h1
+    · subst h1
+      simpa using h.2 row (List.mem_of_getElem? hrow)
+  next => exact h
+
+theorem get_set {n : Nat} {m : Mat} (h : Shape n m) {i j : Nat} (hi : i < n) (hj : j < n) (v i' j' : Nat) :
+    (m.set i j v).get i' j' = if i' = i ∧ j' = j then v else m.get i' j' := by
+  have hil : i < m.length := by rw [h.1]; exact hi
+  have hrow : m[i]? = some m[i] := List.getElem?_eq_getElem hil
+  have hjl : j < (m[i]).length := by rw [h.2 _ (List.getElem_mem hil)]; exact hj
+  unfold Mat.set
+  rw [hrow]
+  simp only [Mat.get, List.getD_eq_getElem?_getD, List.getElem?_set]
+  by_cases h1 : i' = i
+  · subst h1
+    simp [hil, List.getElem?_set]
+    by_cases h2 : j' = j
+    · subst h2; simp [hjl]
+    · have : ¬ j = j' := fun e => h2 e.symm
+      simp [h2, this]
+  · have : ¬ i = i' := fun e => h1 e.symm
+    simp [h1, this]
+
+
+theorem pyIdx_valid {x : Int} {n : Nat} (h0 : 0 ≤ x) (h1 : x < n) : pyIdx x n = some x.toNat := by
+  simp [pyIdx, h0, h1]
+
+theorem foldl_none (n : Nat) (v : Pair → Nat) (ps : List Pair) :
+    ps.foldl (fun acc p => acc.bind (fun m => assign n m p (v p))) none = none := by
+  induction ps with
+  | nil => rfl
+  | cons p ps ih => simpa using ih
+
+theorem shape_assign {n : Nat} {m m' : Mat} {p : Pair} {v : Nat} (h : Shape n m)
+    (ha : assign n m p v = some m') : Shape n m' := by
+  unfold assign at ha
+  split at ha
+  · simp only [Option.some.injEq] at ha
+    subst ha
+    exact shape_set h _ _ _
+  · simp at ha
+
+theorem fold_shape (n : Nat) (v : Pair → Nat) (ps : List Pair) (m0 m : Mat) (h0 : Shape n m0)
+    (h : ps.foldl (fun acc p => acc.bind (fun m => assign n m p (v p))) (some m0) = some m) :
+    Shape n m := by
+  induction ps generalizing m0 with
+  | nil => simp at h; subst h; exact h0
+  | cons p ps ih =>
+    simp only [List.foldl_cons, Option.bind_some] at h
+    cases ha : assign n m0 p (v p) with
+    | none => rw [ha, foldl_none] at h; simp at h
+    | some m1 => rw [ha] at h; exact ih m1 (shape_assign h0 ha) h
+
+theorem fold_get (n : Nat) (v : Pair → Nat) (ps : List Pair) (hv : Valid ps n) (m0 : Mat) (h0 : Shape n m0) :
+    ∃ m, ps.foldl (fun acc p => acc.bind (fun m => assign n m p (v p))) (some m0) = some m ∧
+      ∀ i j, i < n → j < n →
+        m.get i j = if ((i : Int), (j : Int)) ∈ ps then v ((i : Int), (j : Int)) else m0.get i j := by
+  induction ps generalizing m0 with
+  | nil => exact ⟨m0, rfl, by simp⟩
+  | cons p ps ih =>
+    obtain ⟨hp0, hp1, hp2, hp3⟩ := hv p (by simp)
+    have ha : assign n m0 p (v p) = some (m0.set p.1.toNat p.2.toNat (v p)) := by
+      simp [assign, pyIdx_valid hp0 hp1, pyIdx_valid hp2 hp3]
+    have hv' : Valid ps n := fun q hq => hv q (by simp [hq])
+    obtain ⟨m, hm, hget⟩ := ih hv' _ (shape_set h0 p.1.toNat p.2.toNat (v p))
+    refine ⟨m, ?_, ?_⟩
+    · simp only [List.foldl_cons, Option.bind_some, ha]; exact hm
+    · intro i j hi hj
+      rw [hget i j hi hj]
+      by_cases hmem : ((i : Int), (j : Int)) ∈ ps
+      · simp [hmem]
+      · rw [get_set h0 (by omega) (by omega)]
+        by_cases hp : ((i : Int), (j : Int)) = p
+        · subst hp; simp
+        · have hne : ¬ (i = p.1.toNat ∧ j = p.2.toNat) := by
+            intro ⟨e1, e2⟩
+            apply hp
+            apply Prod.ext <;> simp <;> omega
+          simp [hmem, hp, hne]
+
+theorem countPair_eq_zero {rows : List Pair} {p : Pair} (h : p ∉ rows) : countPair rows p = 0 := by
+  unfold countPair
+  rw [List.length_eq_zero_iff, List.filter_eq_nil_iff]
+  intro a ha he
+  simp at he
+  subst he; exact h ha
+
+theorem zeros_get (n i j : Nat) : (zeros n).get i j = 0 := by
+  simp only [Mat.get, zeros, List.getD_eq_getElem?_getD, List.getElem?_replicate]
+  split
+  · simp only [Option.getD_some, List.getElem?_replicate]; split <;> simp
+  · simp
+
 /-- **C05 (matrix entry)**: entry (i, j) equals the number of recorded moves i → j. -/
 theorem matrixAsIs_get (rows : List Pair) (n : Nat) (hv : Valid rows n) :
     ∃ m, matrixAsIs rows n = some m ∧
       ∀ i j, i < n → j < n → m.get i j = countPair rows ((i : Int), (j : Int)) := by
-  sorry
+  have hv' : Valid (uniquePairs rows) n := fun p hp => hv p ((mem_uniquePairs p rows).1 hp)
+  obtain ⟨m, hm, hget⟩ := fold_get n (countPair rows) (uniquePairs rows) hv' (zeros n) (shape_zeros n)
+  refine ⟨m, hm, ?_⟩
+  intro i j hi hj
+  rw [hget i j hi hj]
+  split
+  · rfl
+  · next h => rw [zeros_get, countPair_eq_zero (fun h' => h ((mem_uniquePairs _ rows).2 h'))]
 
 /-- the result is an n × n matrix -/
 theorem matrixAsIs_shape (rows : List Pair) (n : Nat) (m : Mat) (h : matrixAsIs rows n = some m) :
     m.length = n ∧ ∀ r ∈ m, r.length = n := by
-  sorry
+  exact fold_shape n (countPair rows) (uniquePairs rows) (zeros n) m (shape_zeros n) h
+
+
+/-! ## helper lemmas: sums over the index grid -/
+
+section Sums
+set_option linter.unusedSectionVars false
+variable {α : Type} [Add α] [Zero α]
+  [Std.Associative (α := α) (· + ·)] [Std.Commutative (α := α) (· + ·)]
+  [Std.LawfulIdentity (α := α) (· + ·) 0]
+
+theorem add_zero' (a : α) : a + 0 = a := Std.LawfulRightIdentity.right_id (op := (· + ·)) a
+theorem zero_add' (a : α) : 0 + a = a := Std.LawfulLeftIdentity.left_id (op := (· + ·)) a
+
+theorem add_add_add_comm' (a b c d : α) : (a + b) + (c + d) = (a + c) + (b + d) := by
+  have assoc : ∀ x y z : α, x + y + z = x + (y + z) := Std.Associative.assoc (op := (· + ·))
+  have comm : ∀ x y : α, x + y = y + x := Std.Commutative.comm (op := (· + ·))
+  rw [assoc, assoc, ← assoc b, ← assoc c, comm b c]
+
+theorem sum_map_add {β : Type} (l : List β) (f g : β → α) :
+    (l.map (fun x => f x + g x)).sum = (l.map f).sum + (l.map g).sum := by
+  induction l with
+  | nil => simp [zero_add']
+  | cons x xs ih => simp only [List.map_cons, List.sum_cons, ih]; exact add_add_add_comm' _ _ _ _
+
+theorem sum_map_zero {β : Type} (l : List β) (f : β → α) (h : ∀ x ∈ l, f x = 0) :
+    (l.map f).sum = 0 := by
+  induction l with
+  | nil => simp
+  | cons x xs ih =>
+    simp only [List.map_cons, List.sum_cons]
+    rw [h x (by simp), ih (fun y hy => h y (by simp [hy])), zero_add']
+
+theorem sum_range_ite (n a : Nat) (g : Nat → α) (ha : a < n) :
+    ((List.range n).map (fun i => if i = a then g i else 0)).sum = g a := by
+  induction n with
+  | zero => omega
+  | succ n ih =>
+    rw [List.range_succ, List.map_append, List.sum_append]
+    by_cases h : a < n
+    · rw [ih h]
+      have : n ≠ a := by omega
+      simp [this, add_zero']
+    · have : a = n := by omega
+      subst this
+      rw [sum_map_zero]
+      · simp [zero_add', add_zero']
+      · intro x hx
+        have : x < a := by simpa using hx
+        have : x ≠ a := by omega
+        simp [this]
+
+/-- Σ_{i<n} Σ_{j<n} F i j -/
+def gridSum (n : Nat) (F : Nat → Nat → α) : α :=
+  ((List.range n).map (fun i => ((List.range n).map (fun j => F i j)).sum)).sum
+
+theorem gridSum_add (n : Nat) (F H : Nat → Nat → α) :
+    gridSum n (fun i j => F i j + H i j) = gridSum n F + gridSum n H := by
+  unfold gridSum
+  rw [← sum_map_add]
+  congr 1
+  apply List.map_congr_left
+  intro i _
+  exact sum_map_add _ _ _
+
+theorem gridSum_ind (n : Nat) (p : Pair) (hp : 0 ≤ p.1 ∧ p.1 < n ∧ 0 ≤ p.2 ∧ p.2 < n) (F : Nat → Nat → α) :
+    gridSum n (fun i j => if p = ((i : Int), (j : Int)) then F i j else 0) = F p.1.toNat p.2.toNat := by
+  obtain ⟨h0, h1, h2, h3⟩ := hp
+  unfold gridSum
+  have inner : ∀ i : Nat, ((List.range n).map (fun (j : Nat) => if p = ((i : Int), (j : Int)) then F i j else 0)).sum
+      = if i = p.1.toNat then F i p.2.toNat else 0 := by
+    intro i
+    by_cases hi : i = p.1.toNat
+    · rw [if_pos hi, ← sum_range_ite n p.2.toNat (fun j => F i j) (by omega)]
+      congr 1
+      apply List.map_congr_left
+      intro j _
+      have : p = ((i : Int), (j : Int)) ↔ j = p.2.toNat := by
+        constructor
+        · intro e; rw [e]; simp
+        · intro e; apply Prod.ext <;> simp <;> omega
+      simp [this]
+    · rw [if_neg hi]
+      apply sum_map_zero
+      intro j _
+      have : ¬ p = ((i : Int), (j : Int)) := by
+        intro e; apply hi; rw [e]; simp
+      simp [this]
+  simp only [inner]
+  exact sum_range_ite n p.1.toNat (fun i => F i p.2.toNat) (by omega)
+
+end Sums
+
+
+theorem countPair_cons (p q : Pair) (rows : List Pair) :
+    countPair (p :: rows) q = countPair rows q + (if p = q then 1 else 0) := by
+  unfold countPair
+  by_cases h : p = q <;> simp [h]
+
+theorem matrixSpec_get (rows : List Pair) (n i j : Nat) (hi : i < n) (hj : j < n) :
+    (matrixSpec rows n).get i j = countPair rows ((i : Int), (j : Int)) := by
+  simp [Mat.get, matrixSpec, List.getD_eq_getElem?_getD, hi, hj]
+
+theorem matrixSpec_sum_eq (rows : List Pair) (n : Nat) :
+    (matrixSpec rows n).sum = gridSum n (fun i j => countPair rows ((i : Int), (j : Int))) := by
+  simp [Mat.sum, matrixSpec, gridSum, List.map_map, Function.comp_def]
 
 /-- **C05 (sum)**: the matrix sums to the number of rows (= number of jumps). -/
 theorem matrixSpec_sum (rows : List Pair) (n : Nat) (hv : Valid rows n) :
     (matrixSpec rows n).sum = rows.length := by
-  sorry
+  rw [matrixSpec_sum_eq]
+  induction rows with
+  | nil => 
+    unfold gridSum
+    apply sum_map_zero
+    intro i _
+    apply sum_map_zero
+    intro j _
+    rfl
+  | cons p ps ih =>
+    simp only [countPair_cons]
+    rw [gridSum_add, ih (fun q hq => hv q (by simp [hq])),
+      gridSum_ind n p (hv p (by simp)) (fun _ _ => 1)]
+    simp
 
 /-- **C05 (diagonal)**: when no row has origin = destination the diagonal is empty. -/
 theorem matrixSpec_diag (rows : List Pair) (n : Nat) (hd : ∀ p ∈ rows, p.1 ≠ p.2) (i : Nat) (hi : i < n) :
     (matrixSpec rows n).get i i = 0 := by
-  sorry
+  rw [matrixSpec_get rows n i i hi hi]
+  apply countPair_eq_zero
+  intro h
+  exact hd _ h rfl
+
+theorem zipIdx_range (n : Nat) : (List.range n).zipIdx = (List.range n).map (fun i => (i, i)) := by
+  apply List.ext_getElem
+  · simp
+  · intro k h1 h2
+    simp
+
+theorem weightedSum_eq (w : Nat → Nat → Rat) (rows : List Pair) (n : Nat) :
+    weightedSum w (matrixSpec rows n)
+      = gridSum n (fun i j => w i j * (countPair rows ((i : Int), (j : Int)) : Rat)) := by
+  simp [weightedSum, matrixSpec, gridSum, List.zipIdx_map, zipIdx_range, List.map_map, Function.comp_def]
 
 /-- **C05 (jump-diffusivity sum)**: summing `w(i,j) · M_ij` over the matrix is summing `w` over the rows. -/
 theorem weightedSum_eq_rows (w : Nat → Nat → Rat) (rows : List Pair) (n : Nat) (hv : Valid rows n) :
     weightedSum w (matrixSpec rows n) = (rows.map (fun p => w p.1.toNat p.2.toNat)).sum := by
-  sorry
+  rw [weightedSum_eq]
+  induction rows with
+  | nil =>
+    unfold gridSum
+    apply sum_map_zero
+    intro i _
+    apply sum_map_zero
+    intro j _
+    simp [countPair]
+  | cons p ps ih =>
+    have hfun : (fun (i j : Nat) => w i j * (countPair (p :: ps) ((i : Int), (j : Int)) : Rat))
+        = (fun (i j : Nat) => w i j * (countPair ps ((i : Int), (j : Int)) : Rat)
+            + (if p = ((i : Int), (j : Int)) then w i j else 0)) := by
+      funext i j
+      rw [countPair_cons]
+      split <;> grind
+    rw [hfun, gridSum_add, ih (fun q hq => hv q (by simp [hq])), gridSum_ind n p (hv p (by simp))]
+    simp only [List.map_cons, List.sum_cons]
+    grind
+
+theorem occCount_cons (x k : Int) (xs : List Int) :
+    occCount (x :: xs) k = occCount xs k + (if x = k then 1 else 0) := by
+  unfold occCount
+  by_cases h : x = k <;> simp [h]
 
 /-- **C05 (occupancy)**: the per-site frame counts and the "no site" count add up to the
 number of (frame, atom) entries, i.e. Σ_i occupancy_i · T = #{entries at a site}. -/
 theorem occ_sum (states : List Int) (n : Nat) (hs : ∀ x ∈ states, -1 ≤ x ∧ x < n) :
     (((List.range n).map (fun (k : Nat) => occCount states (k : Int))).sum + occCount states (-1))
       = states.length := by
-  sorry
+  induction states with
+  | nil =>
+    rw [sum_map_zero] <;> simp [occCount]
+  | cons x xs ih =>
+    have ih' := ih (fun y hy => hs y (by simp [hy]))
+    obtain ⟨hx0, hx1⟩ := hs x (by simp)
+    simp only [occCount_cons]
+    rw [sum_map_add]
+    have key : ((List.range n).map (fun (k : Nat) => if x = (k : Int) then 1 else 0)).sum
+        + (if x = -1 then 1 else 0) = 1 := by
+      by_cases hx : x = -1
+      · rw [sum_map_zero]
+        · simp [hx]
+        · intro k _
+          have : ¬ x = (k : Int) := by omega
+          simp [this]
+      · have : ((List.range n).map (fun (k : Nat) => if x = (k : Int) then 1 else 0))
+            = ((List.range n).map (fun (k : Nat) => if k = x.toNat then (fun _ => 1) k else 0)) := by
+          apply List.map_congr_left
+          intro k _
+          have : x = (k : Int) ↔ k = x.toNat := by omega
+          simp [this]
+        rw [this, sum_range_ite n x.toNat (fun _ => 1) (by omega)]
+        simp [hx]
+    simp only [List.length_cons]
+    omega
+
 
 /-! ## defect D5 (known finding): rows touching "no site" -/
 
